@@ -201,6 +201,7 @@ def _events_core(case, ctx, distance, feas_fn, what):
     m2 = ctx.call(util.match_events, np.asarray(ref2, dtype=float), np.asarray(est2, dtype=float), w, **kw)
     if len(m2) != len(m):
         raise Violation("%s: size %d changes to %d when the items are permuted" % (what, len(m), len(m2)))
+    _pairs_valid(m2, nr, ne, [[feas_fn(r, e, w) for e in est2] for r in ref2], what + " (items supplied in a different order)")
     on_edge = any(F(abs(F(r) - F(e))) == F(w) for r in ref for e in est) if distance is None else False
     ties = len(set(ref)) < nr or len(set(est)) < ne
     greedy = om.greedy_size(range(nr), adj) < want
@@ -378,6 +379,9 @@ def pred_match_notes(case, ctx):
         m2 = ctx.call(f2)
         if len(m2) != len(m):
             raise Violation("%s: size %d changes to %d when notes are permuted" % (name, len(m), len(m2)))
+        # the pairs returned for the PERMUTED input must be valid too (indices refer to the arrays as supplied, whatever their order)
+        feas2 = [[feas[i][j] for j in case["eperm"]] for i in case["rperm"]]
+        _pairs_valid(m2, nr, ne, feas2, name + " (notes supplied in a different order)")
         if om.greedy_size(range(nr), adj) < want:
             ctx.event("greedy_suboptimal:" + name.split("(")[0])
             nt = True
